@@ -13,6 +13,7 @@ import Naga.Driver.C11
 import Naga.Driver.CSem
 import Naga.Driver.CFlow
 import Naga.Driver.GlslFold
+import Naga.Driver.LitSpec
 
 /-! Line-protocol driver: `nagadrv <cmd> [args]`, one input line ↦ one output line. -/
 
@@ -42,6 +43,7 @@ def main (args : List String) : IO UInt32 := do
   | ["c11"] => loop stdin stdout Naga.Driver.C11.handle; return 0
   | ["cflow"] => loop stdin stdout Naga.Driver.CFlow.handle; return 0
   | ["glslfold"] => loop stdin stdout Naga.Driver.GlslFold.handle; return 0
+  | ["litspec"] => loop stdin stdout Naga.Driver.LitSpec.handle; return 0
   | ["csem"] => loop stdin stdout Naga.Driver.CSem.handle; return 0
   | ["sem"] => loop stdin stdout Naga.Driver.Sem.handle; return 0
   | _ => IO.eprintln s!"nagadrv: unknown command {args}"; return 2
